@@ -104,8 +104,44 @@ def stage_rule(P, R):
                             file=f["file"], line=line, function=f["q"])
 
 
+def models_rule(P, R, RULE="C02.models"):
+    """The diffuse-layer (DDL) and constant-capacitance (CCM) models are the two single-plane electrostatic surface models: every
+    bookkeeping decision that depends on "this surface carries charge in a charge component" treats them alike.  Only the code
+    that implements their different charge-potential LAW (residuals, its Jacobian, the printed potential) may name one without
+    the other.  A test that names DDL but not CCM elsewhere drops the behaviour for CCM surfaces - e.g. the surface charge no
+    longer enters the charge balance of a reaction step."""
+    import collections
+    R.rule(RULE, "outside the charge-potential law itself, every test on the surface model that names DDL names CCM too (and vice versa)", minimum=12)
+    LAW = ("residuals", "jacobian_sums", "print_surface", "print_surface_cd_music",
+           "tidy_surface")      # tidy_surface: input validation only (CCM cannot be combined with an explicit diffuse layer); read and confirmed
+    n = 0
+    for key, f in sorted(P.functions.items()):
+        for x in T.walk(f["body"]):
+            if x[0] not in ("If", "Cond", "While"):
+                continue
+            names = set()
+            for y in T.walk(x[2]):
+                if y[0] == "Bin" and y[2] in ("==", "!="):
+                    for side in (y[3], y[4]):
+                        s_ = T.strip_casts(side)
+                        if s_[0] == "Ref" and s_[2] == "enum" and s_[3].split("::")[-1] in ("DDL", "CCM") and "Surface" in (s_[4] if len(s_) > 4 and isinstance(s_[4], str) else "Surface"):
+                            names.add(s_[3].split("::")[-1])
+            if not names:
+                continue
+            n += 1
+            inst = "%s@%d" % (f["q"].split("::")[-1], x[1])
+            if names == {"DDL", "CCM"} or f["q"].split("::")[-1] in LAW:
+                R.ok(RULE, inst, "names %s" % "+".join(sorted(names)))
+            else:
+                R.violation(RULE, inst, "this test names %s without %s: CCM and DDL surfaces are treated differently here although the code is not part of their charge-potential law "
+                            "(%d other sites name both)" % (sorted(names)[0], "CCM" if names == {"DDL"} else "DDL", 0), file=f["file"], line=x[1], function=f["q"])
+    if n < 12:
+        R.anchor_missing(RULE, "only %d tests on the DDL / CCM surface models found" % n)
+
+
 def run(P, R, tier):
     K = KN.get(P)
+    models_rule(P, R)
     bind_rule(P, R, K)
     stage_rule(P, R)
     from . import c12 as C12
